@@ -64,11 +64,33 @@ fn gen_u32(t: &mut Tape) -> u32 {
 
 pub fn run(tape: &[u8], cx: &Cx) -> Outcome {
     let mut t = Tape::new(tape);
-    let n = t.choose(7);
-    let text: String = (0..n).map(|_| gen_scalar(&mut t)).collect();
+    let text: String = if t.bool_p(30) {
+        let n = 40 + t.choose(120);
+        let mut v: Vec<char> = (0..n).map(|i| char::from_u32(0x61 + (i as u32 % 26)).unwrap()).collect();
+        for _ in 0..1 + t.choose(3) {
+            let k = t.choose(n);
+            v[k] = gen_scalar(&mut t);
+        }
+        v.into_iter().collect()
+    } else {
+        let n = t.choose(7);
+        (0..n).map(|_| gen_scalar(&mut t)).collect()
+    };
     let one: char = gen_scalar(&mut t);
-    let m = t.choose(7);
-    let ints: Vec<u32> = (0..m).map(|_| gen_u32(&mut t)).collect();
+    // mostly short lists; a sixth of the cases long ones with few invalid values (block-wise code paths)
+    let ints: Vec<u32> = if t.bool_p(42) {
+        let m = 40 + t.choose(220);
+        let mut v: Vec<u32> = (0..m).map(|i| 0x61 + (i as u32 % 26)).collect();
+        let bad = 1 + t.choose(3);
+        for _ in 0..bad {
+            let k = t.choose(m);
+            v[k] = gen_u32(&mut t);
+        }
+        v
+    } else {
+        let m = t.choose(7);
+        (0..m).map(|_| gen_u32(&mut t)).collect()
+    };
     let x: u32 = gen_u32(&mut t);
     // literal text with escapes and big characters
     let k = t.choose(8);
@@ -226,6 +248,9 @@ pub fn run(tape: &[u8], cx: &Cx) -> Outcome {
     }
     if ints.iter().any(|&c| c > MAXC) || x > MAXC {
         o.tag("ints>0x2FFFF");
+    }
+    if ints.len() > 64 {
+        o.tag("ints-longer-than-64");
     }
     if lit_cps.iter().any(|&c| c > MAXC) {
         o.tag("literal-with-char>0x2FFFF");
